@@ -30,11 +30,25 @@ CRITERIA = (("minimize", "maximize"), ("maximize", "minimize"), (None, "minimize
 _PROBLEMS = {}
 
 
+MODE = {"loaded": False}
+
+
+def PN():
+    # loaded mode: names whose lexical order is the reverse of the declaration order
+    return ("width", "height") if MODE["loaded"] else ("x0", "x1")
+
+
+def GN():
+    return ("loss", "area") if MODE["loaded"] else ("f0", "f1")
+
+
 def build(history, criteria):
     """history: list of (vector, costs, tag, front)."""
     from artap.individual import Individual
     from artap.results import Results
     from .c_support import make_problem
+    if MODE["loaded"]:
+        return build_loaded(history, criteria)
     key = tuple(criteria)
     if key not in _PROBLEMS:
         _PROBLEMS[key] = make_problem(n_params=2, criteria=list(criteria))
@@ -50,6 +64,44 @@ def build(history, criteria):
         problem.individuals.append(ind)
         inds.append(ind)
     return problem, Results(problem), inds
+
+
+def build_loaded(history, criteria):
+    """The same recorded data, but written to a store and queried on the problem loaded back from it."""
+    import atexit
+    import os
+    import tempfile
+    from artap.datastore import SqliteDataStore
+    from artap.individual import Individual
+    from artap.problem import ProblemViewDataStore
+    from artap.results import Results
+    from .c_support import make_problem
+    problem = make_problem(n_params=2, criteria=list(criteria), param_names=list(PN()))
+    for j, name in enumerate(GN()):
+        problem.costs[j]["name"] = name
+    MODE["n"] = MODE.get("n", 0) + 1
+    db = os.path.join(tempfile.gettempdir(), "c17-%d-%d.sqlite" % (os.getpid(), MODE["n"] % 4))
+    for ext in ("", "-journal"):
+        if os.path.exists(db + ext):
+            os.remove(db + ext)
+    store = SqliteDataStore(problem, database_name=db)
+    for vec, costs, tag, front in history:
+        ind = Individual(list(vec))
+        ind.costs = list(costs)
+        ind.population_id = tag
+        ind.features['front_number'] = front
+        ind.state = Individual.State.EVALUATED
+        problem.individuals.append(ind)
+    store.sync_all()
+    store.destroy()
+    view = ProblemViewDataStore(database_name=db)
+    atexit.unregister(view.cleanup)
+    try:
+        os.rmdir(view.working_dir)
+    except OSError:
+        pass
+    view.data_store.destroy()
+    return view, Results(view), list(view.individuals)
 
 
 def same_ids(a, b):
@@ -114,8 +166,8 @@ def check_values(history, criteria):
     for t in tags + [-1]:
         members = [i for i in inds if i.population_id == (last if t == -1 else t)]
         for srt in (False, True):
-            for pi, pname in enumerate(("x0", "x1")):
-                for gi, gname in enumerate(("f0", "f1")):
+            for pi, pname in enumerate(PN()):
+                for gi, gname in enumerate(GN()):
                     exp = pairs_of([m.vector[pi] for m in members], [m.costs[gi] for m in members])
                     try:
                         pv, gv = res.goal_on_parameter(pname, gname, population_id=t, sorted=srt)
@@ -132,7 +184,7 @@ def check_values(history, criteria):
                         bad("C17:listing:exception:%s" % type(e).__name__, "listing raised %r" % (e,))
             exp = pairs_of([m.vector[0] for m in members], [m.vector[1] for m in members])
             try:
-                v1, v2 = res.parameter_on_parameter("x0", "x1", population_id=t, sorted=srt)
+                v1, v2 = res.parameter_on_parameter(PN()[0], PN()[1], population_id=t, sorted=srt)
                 if pairs_of(v1, v2) != exp:
                     bad("C17:parameter_on_parameter:pairing:sorted=%s" % srt, "parameter_on_parameter(%d) -> %r %r" % (t, v1, v2))
                 elif srt and list(v1) != sorted(v1):
@@ -172,7 +224,7 @@ def check_values(history, criteria):
     try:
         snap = [(list(i.vector), list(i.costs), i.population_id) for i in inds]
         for label, q in (("table", lambda: res.table(transpose=False)), ("population", lambda: res.population()),
-                         ("goal_on_parameter", lambda: res.goal_on_parameter("x0", "f1", sorted=True)),
+                         ("goal_on_parameter", lambda: res.goal_on_parameter(PN()[0], GN()[1], sorted=True)),
                          ("parameters", lambda: res.parameters()), ("costs", lambda: res.costs()),
                          ("pareto_front", lambda: res.pareto_front())):
             first = q()
@@ -190,7 +242,7 @@ def check_values(history, criteria):
     except Exception as e:
         bad("C17:repeat:exception:%s" % type(e).__name__, "raised %r" % (e,))
     # optimum
-    for gi, gname in enumerate(("f0", "f1")):
+    for gi, gname in enumerate(GN()):
         crit = criteria[gi]
         try:
             opt = res.find_optimum(gname)
@@ -220,7 +272,7 @@ def check_optimum_near_ties(costs_seq, crit):
     problem, res, inds = build(history, (crit, "minimize"))
     out = []
     try:
-        opt = res.find_optimum("f0")
+        opt = res.find_optimum(GN()[0])
     except Exception as e:
         return [("C17:find_optimum:exception:%s" % type(e).__name__, "find_optimum raised %r on costs %r" % (e, costs_seq))]
     best = (max if crit == "maximize" else min)(costs_seq)
@@ -309,6 +361,28 @@ def _shard(shard, col: Collector):
             for key, msg in check_values(hist, criteria):
                 col.violation(key, "values", msg, {"history": hist, "criteria": criteria})
         col.sample({"kind": "value-history", "history": [first] + [alpha[5]] * (n - 1), "criteria": criteria}, 1)
+    elif kind == "loaded":
+        # the same queries on a problem LOADED BACK from a store, with parameter and cost names whose lexical order is the
+        # reverse of their declaration order
+        _, criteria = shard
+        MODE["loaded"] = True
+        try:
+            alpha = [(v, c, t, f) for v in VECS[:3] for c in COSTS4 for t in (0, 2) for f in (1, 2)]
+            for n in (1, 2):
+                for hist in itertools.product(alpha, repeat=n):
+                    if n == 2 and hist[0] > hist[1]:
+                        continue
+                    col.case()
+                    col.nontrivial(("loaded", hist, criteria))
+                    for key, msg in check_values(list(hist), criteria):
+                        col.violation(key + ":problem-loaded-from-store", "values", msg, {"history": hist, "criteria": criteria, "loaded": True})
+            for tags in itertools.product(TAGS[:3], repeat=2):
+                col.case()
+                for key, msg in check_tags(list(tags)):
+                    col.violation(key + ":problem-loaded-from-store", "tags", msg, {"tags": tags, "loaded": True})
+        finally:
+            MODE["loaded"] = False
+        col.sample({"kind": "queries on a problem loaded back from a store", "criteria": criteria, "names": ["width", "height", "loss", "area"]}, 1)
     elif kind == "near":
         import math
         vals = (0.5, 0.5 + 1e-8, 0.5 + 4e-8, math.nextafter(0.5, 1.0), 0.5 - 3e-8)
@@ -351,6 +425,12 @@ def _shard(shard, col: Collector):
 
 
 def replay(sub, case):
+    if case.get("loaded") and not MODE["loaded"]:
+        MODE["loaded"] = True
+        try:
+            return replay(sub, case)
+        finally:
+            MODE["loaded"] = False
     tup = lambda h: (tuple(h[0]), tuple(h[1]), h[2], h[3])
     if sub == "tags":
         return check_tags(list(case["tags"]))
@@ -378,6 +458,7 @@ def run(tier, seed):
         for first in alpha:
             shards.append(("values", 3, cn, first, criteria))
     shards += [("ind", "2d"), ("ind", "3d"), ("ind", "decimal"), ("ind", "large"), ("near",)]
+    shards += [("loaded", criteria) for criteria in CRITERIA]
     shards.sort(key=lambda s: 0 if s[0] == "ind" or (s[0] == "values" and s[1] == 3) else 1)
     col = run_shards(_shard, shards)
     return col, {"exhaustive": True}
